@@ -300,7 +300,7 @@ def run_cases(ck, progs):
         out += r["results"]
     crashed = [r for r in out if "crash" in r]
     if crashed:
-        ck.broke("impl-runner-crash", {"prog": crashed[0]["prog"], "crash": crashed[0]["crash"]})
+        ck.runner_crash({"backend": crashed[0]["backend"], "prog": crashed[0]["prog"]}, crashed[0]["crash"])
     return [r for r in out if "crash" not in r]
 
 
@@ -372,7 +372,10 @@ def run(ck: Check):
 def replay(ck: Check, obj) -> int:
     rp = obj.get("replay") or obj["no_longer_checks"][0]["detail"]
     r = run_cases(ck, [rp["prog"]])
-    r = [x for x in r if x["backend"] == rp["backend"]][0]
+    r = [x for x in r if x["backend"] == rp["backend"]]
+    if not r:
+        return 1              # the runner crashed again on this input (reported by run_cases)
+    r = r[0]
     print("trace:", r["trace"])
     print("outcome:", r["outcome"], "closed:", r["closed"])
     bad = oracle(r)
